@@ -144,6 +144,7 @@ type framerSys struct {
 	conn    *segConn
 	res     chan frameRes
 	bindRet chan error
+	done    chan struct{}
 	got     int
 	seed    int64
 
@@ -193,7 +194,7 @@ func concreteFrame(seed int64, idx int, f map[string]any) []byte {
 
 func newFramerSys(meta Meta, seed int64, init any) (Sys, error) {
 	st, _ := init.(map[string]any)
-	s := &framerSys{mode: meta.Sys, conn: newSegConn(), res: make(chan frameRes, 64), seed: seed, bindRet: make(chan error, 1)}
+	s := &framerSys{mode: meta.Sys, conn: newSegConn(), res: make(chan frameRes, 64), seed: seed, bindRet: make(chan error, 1), done: make(chan struct{})}
 	stream, _ := st["stream"].([]any)
 	for i, f := range stream {
 		fr := concreteFrame(seed, i, f.(map[string]any))
@@ -221,7 +222,7 @@ func newFramerSys(meta Meta, seed int64, init any) (Sys, error) {
 			// a panic inside the packetiser is a result like any other (reported as an error of the read that raised it)
 			defer func() {
 				if p := recover(); p != nil {
-					s.res <- frameRes{err: fmt.Errorf("PANIC in STUNConn.ReadFrom: %v", p)}
+					s.emit(frameRes{err: fmt.Errorf("PANIC in STUNConn.ReadFrom: %v", p)})
 				}
 			}()
 			for {
@@ -231,7 +232,9 @@ func newFramerSys(meta Meta, seed int64, init any) (Sys, error) {
 					r.data = append([]byte{}, buf[:min(n, len(buf))]...)
 				}
 				if errors.Is(err, os.ErrDeadlineExceeded) { // the deadline passed: report it, the stream goes on
-					s.res <- r
+					if !s.emit(r) {
+					return
+				}
 
 					continue
 				}
@@ -239,12 +242,16 @@ func newFramerSys(meta Meta, seed int64, init any) (Sys, error) {
 					zero++
 					if zero >= 3 {
 						r.spin = true
-						s.res <- r
+						if !s.emit(r) {
+					return
+				}
 
 						return
 					}
 				}
-				s.res <- r
+				if !s.emit(r) {
+					return
+				}
 				if err != nil {
 					return
 				}
@@ -265,7 +272,23 @@ func newFramerSys(meta Meta, seed int64, init any) (Sys, error) {
 	return s, nil
 }
 
+// emit hands a result to the walker; false once the execution is over (a misframing packetiser can produce more
+// results than anybody will read).
+func (s *framerSys) emit(r frameRes) bool {
+	select {
+	case s.res <- r:
+		return true
+	case <-s.done:
+		return false
+	}
+}
+
 func (s *framerSys) Close() {
+	select {
+	case <-s.done:
+	default:
+		close(s.done)
+	}
 	_ = s.conn.Close()
 	if s.tcpAlloc != nil {
 		_ = s.tcpAlloc.Close()
